@@ -248,6 +248,31 @@ fn run_on_this_thread(only: Option<&str>) -> L2Report {
                 });
             }
         }
+        // third pass, witness-major: the SAME call under one mode after the
+        // other, back to back.  A "last value" cache keyed without the mode
+        // answers the second mode with the first mode's result.
+        for (i, op) in f.ops.iter().enumerate() {
+            for m in 0..8usize {
+                RoundingMode::set_default(MODES[m]);
+                let o = exec_plain(op);
+                witness_evals += 1;
+                if o != rows[m][i] && only.map_or(true, |x| x == f.name) {
+                    failures.push(L2Failure {
+                        kind: "unstable".into(),
+                        family: f.name.clone(),
+                        detail: format!(
+                            "`{}` under {} gives {} right after the same call under {}, but {} when other calls came in between",
+                            op.to_text(),
+                            MODE_NAMES[m],
+                            o.show(),
+                            MODE_NAMES[(m + 7) % 8],
+                            rows[m][i].show()
+                        ),
+                    });
+                    break;
+                }
+            }
+        }
         if sample.is_empty() {
             sample = format!(
                 "{}: {} under HalfEven -> {}, under Up -> {}",
